@@ -33,6 +33,14 @@ def direct_mutations(b, BL):
             if f and not fresh(s['dst']):
                 out.append((pos, 'store:' + f))
     for pos, t in b.iter_calls():
+        if re.search(r'mem::(replace|swap|take)(::<.*>)?$', callee_generic(t) or '') and t['args'] and is_local_op(t['args'][0]):
+            # mem::replace(&mut state.field, v) is a store to the field
+            import flow
+            for f in sorted(flow.deep_sources(b, t['args'][0], depth=8)[2]):
+                if f.split('.')[0] in TRACKED:
+                    out.append((pos, 'store:' + f))
+                    break
+            continue
         if CONTAINER_MUT.search(callee_generic(t) or ''):
             rp = E.recv_place(b, t)
             if rp is not None:
